@@ -50,7 +50,9 @@ def evaluate(d, verify):
             if cmp_:
                 rc, patched = sh([PY, str(cmp_)], cwd=wt, env=env, timeout=900)
                 out['compare_patched_rc'] = rc
-                out['compare_identical'] = (patched == clean)
+                # (object addresses and source line numbers in the interpreter's 'Exception ignored in ...' tracebacks on stderr are not behaviour)
+                _norm = lambda t: re.sub(r', line \d+, in ', ', line ?, in ', re.sub(r' at 0x[0-9a-fA-F]+', ' at 0x?', t or ''))
+                out['compare_identical'] = (_norm(patched) == _norm(clean))
                 out['compare_lines'] = len((clean or '').splitlines())
         ev = tmp / 'ev'
         ev.mkdir()
